@@ -79,13 +79,13 @@ Definition apply_op (d : stream) (o : op) : option stream :=
                       end);
            Some (mkStream (src d) (header d) [k] (filters d) (maps d ++ [[col]]) (slices d) true)
   | OFilter c o r =>
-      if single d then None
-      else do col <- index_of c (header d);                         (* template._all_keys() *)
-           do rhs <- (match r with
-                      | OConst z => Some (inl z)
-                      | OColumn c2 => option_map inr (index_of c2 (header d))
-                      end);
-           Some (mkStream (src d) (header d) (vis d) (filters d ++ [mkFilt col o rhs]) (maps d) (slices d) false)
+      (* also on a column stream (seq['col'].data[ce]): the clause is resolved in the SOURCE template *)
+      do col <- index_of c (header d);                              (* source template, _all_keys() *)
+      do rhs <- (match r with
+                 | OConst z => Some (inl z)
+                 | OColumn c2 => option_map inr (index_of c2 (header d))
+                 end);
+      Some (mkStream (src d) (header d) (vis d) (filters d ++ [mkFilt col o rhs]) (maps d) (slices d) (single d))
   | OSlice s => Some (mkStream (src d) (header d) (vis d) (filters d) (maps d) (slices d ++ [s]) (single d))
   | OInt i => Some (mkStream (src d) (header d) (vis d) (filters d) (maps d)
                               (slices d ++ [mkSlice (Some i) (Some (i + 1)) None]) (single d))
